@@ -39,10 +39,13 @@ class Chain(object):
         self.mode = mode
         self.d = zlib.decompressobj(WBITS[mode])
         self.held = b''
+        self.over = False                     # something else than a further member followed: the stream is over
 
     def decompress(self, data):
         if self.mode != 'gzip':
             return self.d.decompress(data)
+        if self.over:
+            return b''
         out = b''
         data = self.held + data
         self.held = b''
@@ -54,7 +57,8 @@ class Chain(object):
                     self.held = data          # perhaps the first octet of the next member
                     break
                 else:
-                    break                     # trailing garbage: ignored
+                    self.over = True          # trailing garbage: ignored, and all that follows it
+                    break
             out += self.d.decompress(data)
             data = self.d.unused_data
         return out
@@ -190,6 +194,10 @@ def make_bodies(tier, max_full):
     add('gzip-2members', 'gzip', 'gzip', compress(b'a', 0, 'gzip') + compress(b'b', 0, 'gzip'), b'ab', 'members')
     add('gzip-2members-garbage', 'gzip', 'gzip', compress(b'a', 0, 'gzip') + compress(b'b', 6, 'gzip') + b'\x00garbage', b'ab', 'members')
     add('gzip-member-then-1f', 'gzip', 'gzip', compress(b'ab', 6, 'gzip') + b'\x1f', b'ab', 'members')
+    # ... also when something that looks like a member comes after it (where a piece happens to end must not matter)
+    add('gzip-member-padding-member', 'gzip', 'gzip', compress(b'a', 6, 'gzip') + b'\x00\x00' + compress(b'b', 6, 'gzip'), b'a', 'members')
+    add('gzip-member-1f-then-member', 'gzip', 'gzip', compress(b'a', 6, 'gzip') + b'\x1f\x00' + compress(b'b', 6, 'gzip'), b'a', 'members')
+    add('gzip-member-padding-magic', 'gzip', 'gzip', compress(b'ab', 6, 'gzip') + b'\x00\x1f\x8b\x08', b'ab', 'members')
     for z in ZLIBISH:
         add('zlibish/%s' % z.hex(), 'deflate', 'raw', z, b'A', 'zlibish')
         for t in range(1, len(z)):
